@@ -418,6 +418,11 @@ func run(c *simrun.Ctx) *simrun.Violation {
 			base.Parameter = proto.String(p)
 		}
 	}
+	if src > 3 {
+		for _, what := range requestOddities(t, base) {
+			st.Add("fault_request_"+what, 1)
+		}
+	}
 	st.Add("requests_"+srcName, 1)
 	full := append([]string{}, base.FileToGenerate...)
 	var protoNames []string
@@ -717,6 +722,128 @@ func noteLeftBehind(st *simrun.Stats) {
 		}
 		return nil
 	})
+}
+
+var commentPool = []string{" plain comment\n", " two\n lines\n", " has */ and // and /* inside\n", " trailing spaces   \n", "\ttab and unicode \u00e9\u4e16\n", " Deprecated: do not use.\n", "\n", " `backquotes` and \"quotes\" and \\ backslash\n"}
+
+// requestOddities makes the request less tidy, the way real requests are: a
+// source_code_info with comments (protoc always sends one for the files to
+// generate), deprecated options, a compiler version - and, rarely, a request
+// that is broken (a file without go_package, a file to generate that is not in
+// proto_file, a proto_file listed twice), to which the plugin has to answer
+// with the same error every time.
+func requestOddities(t *simhook.Tape, req *pluginpb.CodeGeneratorRequest) []string {
+	var done []string
+	if t.Chance("odd-comments", 1, 3) {
+		for _, f := range req.ProtoFile {
+			if !strings.HasPrefix(f.GetName(), "rnd/") {
+				continue
+			}
+			sci := &descriptorpb.SourceCodeInfo{}
+			add := func(path ...int32) {
+				if !t.Chance("odd-comment-here", 1, 2) {
+					return
+				}
+				loc := &descriptorpb.SourceCodeInfo_Location{Path: path, Span: []int32{int32(len(sci.Location)), 0, 10}}
+				loc.LeadingComments = proto.String(commentPool[t.Draw("odd-comment", len(commentPool))])
+				if t.Chance("odd-trailing", 1, 4) {
+					loc.TrailingComments = proto.String(commentPool[t.Draw("odd-comment", len(commentPool))])
+				}
+				if t.Chance("odd-detached", 1, 6) {
+					loc.LeadingDetachedComments = []string{commentPool[t.Draw("odd-comment", len(commentPool))]}
+				}
+				sci.Location = append(sci.Location, loc)
+			}
+			add(12) // syntax
+			add(2)  // package
+			for i, m := range f.MessageType {
+				add(4, int32(i))
+				for j := range m.Field {
+					add(4, int32(i), 2, int32(j))
+				}
+				for j := range m.OneofDecl {
+					add(4, int32(i), 8, int32(j))
+				}
+				for j := range m.NestedType {
+					add(4, int32(i), 3, int32(j))
+				}
+			}
+			for i, e := range f.EnumType {
+				add(5, int32(i))
+				for j := range e.Value {
+					add(5, int32(i), 2, int32(j))
+				}
+			}
+			for i, sv := range f.Service {
+				add(6, int32(i))
+				for j := range sv.Method {
+					add(6, int32(i), 2, int32(j))
+				}
+			}
+			f.SourceCodeInfo = sci
+		}
+		done = append(done, "carries_source_code_info_with_comments")
+	}
+	if t.Chance("odd-deprecated", 1, 5) {
+		for _, f := range req.ProtoFile {
+			if !strings.HasPrefix(f.GetName(), "rnd/") {
+				continue
+			}
+			if t.Chance("odd-dep-file", 1, 3) {
+				if f.Options == nil {
+					f.Options = &descriptorpb.FileOptions{}
+				}
+				f.Options.Deprecated = proto.Bool(true)
+				f.Options.JavaPackage = proto.String("com.example.rnd")
+			}
+			for _, m := range f.MessageType {
+				if t.Chance("odd-dep-msg", 1, 3) {
+					if m.Options == nil {
+						m.Options = &descriptorpb.MessageOptions{}
+					}
+					m.Options.Deprecated = proto.Bool(true)
+				}
+				for _, fd := range m.Field {
+					if t.Chance("odd-dep-field", 1, 4) {
+						if fd.Options == nil {
+							fd.Options = &descriptorpb.FieldOptions{}
+						}
+						fd.Options.Deprecated = proto.Bool(true)
+					}
+				}
+			}
+			for _, e := range f.EnumType {
+				for _, v := range e.Value {
+					if t.Chance("odd-dep-enumval", 1, 4) {
+						v.Options = &descriptorpb.EnumValueOptions{Deprecated: proto.Bool(true)}
+					}
+				}
+			}
+		}
+		done = append(done, "has_deprecated_options")
+	}
+	if t.Chance("odd-compiler-version", 1, 4) {
+		req.CompilerVersion = &pluginpb.Version{Major: proto.Int32(int32(3 + t.Draw("odd-cv-major", 30))), Minor: proto.Int32(int32(t.Draw("odd-cv-minor", 30))), Patch: proto.Int32(int32(t.Draw("odd-cv-patch", 10))), Suffix: proto.String([]string{"", "-rc1", "-dev"}[t.Draw("odd-cv-suffix", 3)])}
+		done = append(done, "names_a_compiler_version")
+	}
+	if t.Chance("odd-broken", 1, 12) && len(req.ProtoFile) > 0 {
+		switch t.Draw("odd-broken-kind", 3) {
+		case 0:
+			f := req.ProtoFile[t.Draw("odd-broken-file", len(req.ProtoFile))]
+			if f.Options != nil {
+				f.Options.GoPackage = nil
+			}
+			done = append(done, "is_broken_file_without_go_package")
+		case 1:
+			req.FileToGenerate = append(req.FileToGenerate, "rnd/not/in/proto_file.proto")
+			done = append(done, "is_broken_unknown_file_to_generate")
+		case 2:
+			f := req.ProtoFile[t.Draw("odd-broken-file", len(req.ProtoFile))]
+			req.ProtoFile = append(req.ProtoFile, proto.Clone(f).(*descriptorpb.FileDescriptorProto))
+			done = append(done, "is_broken_proto_file_listed_twice")
+		}
+	}
+	return done
 }
 
 func sortedCopy(s []string) []string {
